@@ -2,7 +2,7 @@
    format_string) closed over the escape tables: ser_compact / ser_pretty of a reference tree.
    Strings are quoted with the specification escaper, numbers keep their literal. *)
 From Coq Require Import List NArith Arith Bool.
-From SonicV Require Import Spec.Ref Model.Escape Model.TablesOk Model.SerRoundTrip Model.Pretty.
+From SonicV Require Import Spec.Ref Model.Escape Model.TablesDefs Model.SerRoundTrip Model.Pretty.
 Import ListNotations.
 Open Scope N_scope.
 
